@@ -148,6 +148,68 @@ def _unparse(tree):
         return f"<ast.unparse failed: {type(e).__name__}: {e}>"
 
 
+def truth_blind(chk, names):
+    """A rule sees a child model's *presence*, never its truth value: a falsy literal child (0, the empty string) in any
+    evaluated slot must be compiled exactly as a truthy literal of the same type in that slot - otherwise a test like
+    `if guard:` on the model itself silently treats the sub-form as absent.  For every catalogue entry and every evaluated
+    slot: the emission with Integer(0) equals the emission with Integer(7) up to that constant (same for "" / "x");
+    a Hy error for both is fine, an error for exactly one of them is not."""
+    pairs = (("0", lambda: Integer(0), lambda: Integer(7), lambda v: isinstance(v, int) and not isinstance(v, bool) and v in (0, 7)),
+             ("empty string", lambda: String(""), lambda: String("x"), lambda v: isinstance(v, str) and v in ("", "x")))
+
+    def emit(entry, i, mk):
+        sv = tuple(("E" if "E" in sl else sl[0]) for sl in entry.slots)
+        toks, _ = structural.make(entry, sv)
+        toks = list(toks)
+        toks[i] = mk()
+        form = structural.position(entry.builder(*toks), len(sv))
+        out = sx.run_rule(form, scope_ctx=structural.scope_ctx_for(entry))
+        if not out.ok:
+            return ("hy-error" if sx.is_hy_user_error(out.exc) else "error", type(out.exc).__name__)
+        return ("ok", out.result)
+
+    def norm(res, same):
+        nodes = list(res.stmts) + ([res._expr] if res._expr is not None else [])
+        outl = []
+        for n in nodes:
+            n = __import__("copy").deepcopy(n)
+            for c in ast.walk(n):
+                if isinstance(c, ast.Constant) and same(c.value):
+                    c.value = "<LIT>"
+                for a in ("lineno", "col_offset", "end_lineno", "end_col_offset"):
+                    if hasattr(c, a):
+                        try:
+                            delattr(c, a)
+                        except AttributeError:
+                            pass
+            outl.append(sx.show(n) if isinstance(n, (AbsStmt, AbsExpr)) else ast.dump(n))
+        return outl
+    for name in names:
+        entry = catalog.ENTRIES[name]
+        for i, sl in enumerate(entry.slots):
+            if "E" not in sl or (entry.evaluated is not None and i not in entry.evaluated):
+                continue
+            for pname, falsy, truthy, same in pairs:
+                oname = f"truth-blind/{name}/slot {i}/{pname}"
+                chk.case(oname)
+                try:
+                    a, b = emit(entry, i, falsy), emit(entry, i, truthy)
+                except Exception as e:  # noqa: BLE001  (the schema itself cannot hold a literal there)
+                    chk.ob(oname, True, "structural", "proved", detail=f"not instantiable with a literal: {type(e).__name__}")
+                    continue
+                if a[0] != "ok" or b[0] != "ok":
+                    ok = a[0] == b[0]
+                    chk.ob(oname, ok, "structural", "proved", detail=f"falsy literal: {a[0]} {a[1] if a[0] != 'ok' else ''}; truthy literal: {b[0]} {b[1] if b[0] != 'ok' else ''}")
+                    continue
+                try:
+                    na, nb = norm(a[1], same), norm(b[1], same)
+                except Exception as e:  # noqa: BLE001
+                    chk.ob(oname, None, "structural", "proved", detail=f"cannot normalise: {e}")
+                    continue
+                chk.ob(oname, na == nb, "structural", "proved",
+                       detail=None if na == nb else f"the emission depends on the literal's truth value:\n falsy : {sx.show(a[1])}\n truthy: {sx.show(b[1])}")
+
+
 def coverage_of_macro_table(chk):
     """Vacuity guard: every core result macro must be exercised by the catalogue, or be on the explicit exclusion list."""
     import hy.core.result_macros as rm
@@ -183,6 +245,7 @@ def run(chk):
     structural.run(chk, "conserve", conservation, names,
                    kind_of=lambda n: "proved")
     coverage_of_macro_table(chk)
+    truth_blind(chk, names)
     # canary: a rule that really drops a child must be refuted (use a stub rule registered only here)
     from hy.compiler import Result
     import hy.compiler as hc
